@@ -384,3 +384,53 @@ unit({
         _fn('src/Sprite/ArtFile.cpp', 'ArtFile::ValidateImageMetadata', 'ArtFile_ValidateImageMetadata', cls='ArtFile', rangefor={'imageMeta': 'ImageMeta'}),
     ],
 })
+
+# --------------------------------------------------------------------------- U-WRT (Writer.h / Reader.h template helpers over the abstract stream contracts)
+WH = 'src/Stream/Writer.h'; RH = 'src/Stream/Reader.h'
+def _wr(ordinal, cname, **kw):
+    d = {'file': WH, 'qual': 'Write', 'inclass': 'Writer', 'ordinal': ordinal, 'cls': 'Wr', 'cname': cname, 'members': {}}
+    d.update(kw); return d
+def _rdh(ordinal, cname, **kw):
+    d = {'file': RH, 'qual': 'Read', 'inclass': 'Reader', 'ordinal': ordinal, 'cls': 'Rd', 'cname': cname, 'members': {}}
+    d.update(kw); return d
+unit({
+    'name': 'wrt',
+    'includes': ['kr.h', 'wr.h'],
+    'typemap': {'Reader': 'Rd', 'std::array<char,BufferSize>': 'chunk_buf', 'std::string': 'str'},
+    'structs': [STR_VIEW, VIEW('vec_u8', 'uint8_t'), VIEW('vec_u32', 'uint32_t'), ('src/Stream/Writer.h', 'Writer', {'cname': 'WriterCls'}),
+                'typedef struct chunk_buf { char* e; } chunk_buf;'],
+    'default_ctors': {'chunk_buf': 'chunk_buf_init'},
+    'calls': {
+        'WriteImplementation': T('Wr_WriteImplementation'),
+        'ReadImplementation': T('Rd_Read'),
+        'ReadPartial': N('Rd_ReadPartial'),
+        'max_size': N('OP2_VEC_MAX_SIZE', recv='none'),
+    },
+    'functions': [
+        _wr(0, 'Writer_Write'),
+        _wr(5, 'Writer_WriteReader', calls={'Write': {2: T('Writer_Write')}}, views=[('buffer', 'arr')]),
+    ] + [
+        _wr(3, 'Writer_WriteSized_%s_vec_u8' % tag_, tbind={'T': 'vec_u8'}, typemap={'SizeType': st_}, autos={'containerSize': 'size_t'},
+            calls={'Write': {1: [(r'\(\*container\)|container', T('Writer_Write', args=['vec'])), (r'.*', T('Writer_Write', args=['objtmp']))]}})
+        for tag_, st_ in (('u32', 'uint32_t'), ('u16', 'uint16_t'), ('u8', 'uint8_t'), ('i16', 'int16_t'), ('i8', 'int8_t'))
+    ] + [
+        _rdh(0, 'Reader_Read'),
+    ],
+})
+
+# --------------------------------------------------------------------------- U-DYNW (DynamicMemoryWriter over the std::vector model)
+DW = 'src/Stream/DynamicMemoryWriter.cpp'
+def _dw(name, **kw):
+    d = {'file': DW, 'qual': 'DynamicMemoryWriter::' + name, 'cls': 'DynamicMemoryWriter', 'cname': 'DynamicMemoryWriter_' + name}
+    d.update(kw); return d
+unit({
+    'name': 'dynw',
+    'includes': ['kr.h', 'vecmodel.h'],
+    'typemap': {'DynamicMemoryWriter': 'DynamicMemoryWriter', 'std::vector<uint8_t>': 'vec_u8', 'SizeType': 'size_t', 'MemoryReader': 'MemoryReader'},
+    'structs': [('src/Stream/MemoryReader.h', 'MemoryReader'), ('src/Stream/DynamicMemoryWriter.h', 'DynamicMemoryWriter')],
+    'calls': {'resize': {1: T('vec_u8_resize'), 2: T('vec_u8_resize_fill')}, 'reserve': N('vec_u8_reserve'), 'MemoryReader': N('MemoryReader_make', recv='none')},
+    'functions': [
+        _dw('WriteImplementation', autos={'streamSize': 'size_t'}), _dw('Length'), _dw('Position'),
+        _dw('SeekForward', autos={'streamSize': 'size_t'}), _dw('SeekBackward', autos={'streamSize': 'size_t'}), _dw('Seek'), _dw('GetReader'),
+    ],
+})
